@@ -325,6 +325,21 @@ pub trait Hamiltonian<M: Math>: Sized {
     fn copy_state(&mut self, math: &mut M, state: &State<M, Self::Point>) -> (r: State<M, Self::Point>)
         ensures msame(final(math), old(math)), final(self).step() == old(self).step(), final(self).trans() == old(self).trans(),
                 state.p.copy_post(r.p), r.unique@, r.view() == state.view();
+    fn momentum_decoherence_length(&self) -> Option<F>;
+    /// (contract text assumed by unit mclmc) only the velocity -- and, Euclidean, the kinetic energy -- of `state` change
+    spec fn refresh_post(&self, post: &Self, p0: &State<M, Self::Point>, p1: &State<M, Self::Point>, r: core::result::Result<(), NutsError>) -> bool;
+    fn partial_momentum_refresh<R: Rng + ?Sized>(&mut self, math: &mut M, state: &mut State<M, Self::Point>, noise: &M::Vector, rng: &mut R, factor: F)
+        -> (r: core::result::Result<(), NutsError>)
+        ensures
+            final(self).step() == old(self).step(), final(self).trans() == old(self).trans(),
+            final(math).dim_spec() == old(math).dim_spec(), no_eval(old(math), final(math)),
+            final(state).view().idx == old(state).view().idx,
+            final(state).view().e0 == old(state).view().e0,
+            final(state).view().x == old(state).view().x && final(state).view().g == old(state).view().g
+                && final(state).view().q == old(state).view().q && final(state).view().gq == old(state).view().gq
+                && final(state).view().logp == old(state).view().logp,
+            final(rng).log() == old(rng).log(),
+            old(self).refresh_post(final(self), old(state), final(state), r);
     fn step_size(&self) -> (r: F) ensures r.r() == self.step();
     fn step_size_mut(&mut self) -> (r: &mut F)
         ensures r.r() == old(self).step(), final(self).step() == final(r).r(), final(self).trans() == old(self).trans();
